@@ -138,7 +138,14 @@ fn plan(tier: Tier) -> Vec<(Cfg, &'static str)> {
                     if c.target == 1024 && (f == "F2" || f == "F3" || f == "F4" || f == "F8" || f == "F9" || f == "F9b" || f == "F9c" || f == "F10") {
                         continue;
                     }
-                    if (f == "F9" || f == "F9b" || f == "F9c") && !c.prevention_on() {
+                    // the fragmented-dedup families run under the configurations made for them only
+                    let frag_cfgs: &[&str] = match f {
+                        "F9" => &["K3", "K9-", "K10", "K8"],
+                        "F9b" => &["K9-", "K10", "K11"],
+                        "F9c" => &["K10", "K11"],
+                        _ => &[],
+                    };
+                    if f.starts_with("F9") && !frag_cfgs.iter().any(|k| c.name.starts_with(k)) {
                         continue;
                     }
                     if c.name.starts_with("K9") || c.name.starts_with("K10") || c.name.starts_with("K11") {
